@@ -183,7 +183,7 @@ def make_jobs(prop, spec, tier, vseed, bins, workroot):
         race = bool(u.get("race"))
         binary = bins["fuzz" if mode == "fuzz" else ("race" if race else "plain")]
         nshards = int(tier_val(u.get("shards", 16 if mode == "rapid" else 1), tier))
-        timeout = int(tier_val(u.get("timeout", {"quick": 240, "thorough": 3600}), tier))
+        timeout = int(tier_val(u.get("timeout", {"quick": 600, "thorough": 5400}), tier))
         for sh in range(nshards):
             env = dict(GOENV)
             env.update({
@@ -200,7 +200,10 @@ def make_jobs(prop, spec, tier, vseed, bins, workroot):
             for k, v in u.get("env", {}).items():
                 env[k] = str(tier_val(v, tier))
             cwd = os.path.join(workroot, name, str(sh))
-            cmd = [binary, "-test.v", "-test.count=1", "-test.timeout=%ds" % (timeout + 60)]
+            # no go-test deadline: rapid ends a run early ("passed N" with N below the requested count) when
+            # 5 average iterations no longer fit before the deadline, which on a loaded machine turned slow
+            # cases into "undecided". The driver's own per-unit timeout bounds the run instead.
+            cmd = [binary, "-test.v", "-test.count=1", "-test.timeout=0"]
             want = None
             if mode == "rapid":
                 total = int(tier_val(u["checks"], tier))
